@@ -85,11 +85,20 @@ contract(
         ],
     },
     loops={1: Loop(over='other_bonds', modifies=[], invariant=[
-        "all(not member(x, self.terminal_bonds) and member(x, other_bonds) for x in clean_bonds)"])},
+        "all(not member(x, self.terminal_bonds) and member(x, other_bonds) for x in clean_bonds)",
+        "all(kind_ok(x) and ends_in_digit(x) for x in clean_bonds)"])},
+    after={"correspondence = merge_graphs(molecule, self.fragment_dict[fragname])": [
+        "has_node(self.fragment_dict[fragname], target_node) and target_node in correspondence",
+        "has_node(molecule, correspondence[target_node]) and not old(has_node(molecule, correspondence[target_node])) and correspondence[target_node] != source_node",
+        "has_attr(molecule, correspondence[target_node], 'bonding') and member(compl_bonding, attr(molecule, correspondence[target_node], 'bonding'))",
+        "attr(molecule, correspondence[target_node], 'bonding') == attr(self.fragment_dict[fragname], target_node, 'bonding')",
+        "has_node(molecule, source_node) and has_attr(molecule, source_node, 'bonding') and member(bonding, attr(molecule, source_node, 'bonding'))",
+    ]},
     opaque=['complementary', 'is_descriptor', 'ends_in_digit', 'kind_ok'], heap_invariants=['descriptors', 'fragid'],
     wf_all_graphs=True,
     callee_clauses={'merge_graphs': ['implies(has_node(target_graph, n), n in result', 'forall_int(lambda n: has_node(source_graph, n) ==',
-                                     'node_unchanged(source_graph, n)', "'bonding') for j in range", 'edge_unchanged(source_graph, u, v)'],
+                                     'node_unchanged(source_graph, n)', "same_attr(source_graph, result[n], target_graph, n, 'bonding')",
+                                     'edge_unchanged(source_graph, u, v)'],
                     'find_complementary_bonding_descriptor': ['member(c, ellegible_descriptors) and complementary']},
     examples=_ex_add_fragment,
 )
